@@ -120,7 +120,12 @@ def apiAnswer (mode : String) (d : Desc) : String :=
   let tx := joinC (txs.map txSanityClass)
   let fin := joinC (txs.map (fun t => b01 (t.final d.C.height d.lockCutoff)))
   let sl := joinC (txs.map (fun t =>
-    if t.ins.any (fun i => !i.null && !i.avail) then "-" else b01 (!d.csv || t.seqLocksOk d.C.height d.C.prevMTP)))
+    -- `CalcSequenceLock` reads the CSV deployment state as of the tip, not of the next block
+    if t.ins.any (fun i => !i.null && !i.avail) then "-"
+    else b01 (!(deployed d.P.csvH (d.C.height - 1)) || t.seqLocksOk d.C.height d.C.prevMTP)))
+  let scr := joinC (txs.map (fun t =>
+    if t.isCoinbase || t.ins.any (fun i => i.null || !i.avail) then "-"
+    else b01 (t.ins.all (fun i => i.scriptOk d.flags))))
   let ins := joinC (txs.map (fun t => txInputsResult t d.C.height d.P.maturity))
   let so := joinC (txs.map (fun t => toString t.legacySigops))
   let cost := fun (b16 sw : Bool) => joinC (txs.map (fun t => txSigOpCostResult t b16 sw))
@@ -134,7 +139,7 @@ def apiAnswer (mode : String) (d : Desc) : String :=
       else if d.B.commit == 0 && txs.any (·.hasWitness) then "witness" else "ok"
   s!"sanity={sanity} hs={hs} pow={pow} hc={hc} tx={tx} fin={fin} sl={sl} in={ins} so={so} " ++
   s!"c00={cost false false} c01={cost false true} c10={cost true false} c11={cost true true} " ++
-  s!"w={d.weight} cbh={cbh} wc={wc} sub={subsidy d.C.height d.P.subsidyInterval}"
+  s!"w={d.weight} cbh={cbh} wc={wc} sub={subsidy d.C.height d.P.subsidyInterval} sc={scr}"
 
 def parseDesc? : List String → Option (Desc × Scen)
   | p :: c :: h :: b :: s :: txs =>
